@@ -1,3 +1,58 @@
-import DosModel.Model.Util
--- stub: no model driver for this property yet
-def main : IO Unit := Dos.lineLoop (fun _ => "unimplemented")
+import DosModel.Model.Bls
+/-
+Line-protocol driver for C06.  Acceptance is decided by running the generic `Bls.verify` on the
+instance `Bls.evalOps`: G1 concrete (affine model), the public key given by its discrete log
+(the harness makes every key as x•g₂ and puts x in the case line), e(P, x) = x•P.  So
+"accept" ⇔ the signature parses to a point S with  −S + x•(h•g₁) = O,  h = keccak256(msg) mod r
+computed by the Lean Keccak of `Model/Keccak.lean`.
+-/
+open Dos Dos.Bn256 Dos.Codec Dos.Bls
+
+namespace Dos.DrvC06
+
+def synBytes (n a b : Nat) : Bytes :=
+  (List.range n).map (fun i => UInt8.ofNat ((a * i + b) % 256))
+
+/-- message descriptor: `-` (empty), hex, or `syn:n:a:b` (byte i = (a·i+b) mod 256) -/
+def msgOf (s : String) : Option Bytes :=
+  match s.splitOn ":" with
+  | ["syn", n, a, b] =>
+    match n.toNat?, a.toNat?, b.toNat? with
+    | some n, some a, some b => some (synBytes n a b)
+    | _, _, _ => none
+  | _ => ofHex s
+
+def step (line : String) : String :=
+  match words line with
+  | ["verify", sk, ms, ss] =>
+    match sk.toNat?, msgOf ms, ofHex ss with
+    | some sk, some msg, some sig => verdictName (verify evalOps (sk % r) msg sig)
+    | _, _, _ => "bad-op"
+  | ["sign", sk, ms] =>
+    match sk.toNat?, msgOf ms with
+    | some sk, some msg =>
+      let x := sk % r
+      s!"ok {toHex (sign evalOps x msg)} pk={toHex (marshalG2 (G2.smul x g2gen))}"
+    | _, _ => "bad-op"
+  | ["keccak", ms] =>
+    match msgOf ms with
+    | some msg => toHex (Keccak.keccak256 msg)
+    | none => "bad-op"
+  | _ => "bad-op"
+
+end Dos.DrvC06
+
+partial def readLines (h : IO.FS.Stream) (acc : Array String) : IO (Array String) := do
+  let line ← h.getLine
+  if line.isEmpty then return acc
+  let l := (line.trimAsciiEnd).toString
+  if l.isEmpty then readLines h acc else readLines h (acc.push l)
+
+def main : IO Unit := do
+  let stdin ← IO.getStdin
+  let lines ← readLines stdin #[]
+  let tasks := lines.map (fun l => Task.spawn (fun _ => Dos.DrvC06.step l))
+  let out ← IO.getStdout
+  for t in tasks do
+    out.putStrLn t.get
+  out.flush
